@@ -26,7 +26,7 @@ def _gen(rnd):
         R += rnd.choice(["ATG", "GTG", "TTG", "TAA", "TGA", "CAT", "TTA", "GCC", "AAA", "CTG", "ATT", "C", "AG"])
     R = R[:L]
     par = Parent(id="chrG", sequence=Sequence(R, Alphabet.NT_EXTENDED_GAPPED, id="chrG", type=SequenceType.CHROMOSOME))
-    model, genes, fcs, twins = [], [], [], []
+    model, genes, fcs, twins, anti = [], [], [], [], []
     pos = 5
     tagnums = rnd.sample([2, 9, 10, 11, 19, 100, 101, 20], 5)
     for gi in range(rnd.randrange(1, 5)):
@@ -93,12 +93,22 @@ def _gen(rnd):
                                       locus_tag=tag, sequence_name="chrG", parent_or_seq_chunk_parent=par))
             model.append(["gene", min(t[0][0][0] for t in tm), max(t[0][-1][1] for t in tm), st, "sym%d" % gi, tag, tm])
         pos = blocks[-1][1] + rnd.randrange(3, 15)
+        if model[-1][0] == "gene" and gi not in twins and len(tagnums) > 4 and rnd.random() < 0.2 and not anti:
+            # an antisense gene annotated over the very same span (a non-coding RNA on the opposite strand)
+            ast = {"+": "-", "-": "+"}[st]
+            atag = "LT_%d" % tagnums[4]
+            atx = mk_tx(blocks, ast, None, None, parent=par, transcript_id="tx_as", transcript_type=Biotype["ncRNA"],
+                        sequence_name="chrG")
+            genes.append(GeneInterval([atx], gene_id="gid_as", gene_symbol="sym_as", gene_type=Biotype["ncRNA"],
+                                      locus_tag=atag, sequence_name="chrG", parent_or_seq_chunk_parent=par))
+            model.append(["gene", blocks[0][0], blocks[-1][1], ast, "sym_as", atag, [[blocks, [], "ncRNA", ""]]])
+            anti.append(gi)
     if not genes and not fcs:
         return None
     coll = AnnotationCollection(feature_collections=fcs, genes=genes, sequence_name="chrG",
                                 parent_or_seq_chunk_parent=par)
     model.sort(key=lambda m: m[1])
-    return coll, model, R, bool(twins)
+    return coll, model, R, bool(twins), bool(anti)
 
 
 def _loc_blocks(loc):
@@ -108,7 +118,7 @@ def _loc_blocks(loc):
 
 def _project(c, flavour):
     out = []
-    for g in sorted(c.genes, key=lambda x: (x.start, x.end)):
+    for g in sorted(c.genes, key=lambda x: (str(x.locus_tag), x.start, x.end)):
         rows = []
         for t in g.transcripts:
             ex = list(map(list, zip(t._genomic_starts, t._genomic_ends)))
@@ -140,7 +150,7 @@ def _events(args):
         b = _gen(rnd)
         if not b:
             continue
-        coll, model, R, has_twins = b
+        coll, model, R, has_twins, lapped = b
         # what must come back is fixed before ANY export runs (an export must not be able to alter its source and the
         # expectation with it)
         src_by_flavour = {fl: _project(coll, fl) for fl in ("PROKARYOTIC", "EUKARYOTIC")}
@@ -194,7 +204,7 @@ def _events(args):
                     outs.append(["x", type(ex).__name__ + ":" + str(ex)[:60]])
                     orders_by_mode.append(["!"])
             src_order = [str(g.locus_tag) for g in sorted(coll.genes, key=lambda x: (x.start, x.end))]
-            ev.append(["reparse", flavour, src] + outs + [src_order, orders_by_mode])
+            ev.append(["reparse", flavour, src] + outs + [src_order, orders_by_mode, lapped])
     return ev
 
 
